@@ -24,6 +24,11 @@ import (
 //	         undone exactly by the logN doublings; all other coefficients cancel exactly)
 //	Extract: cts[i] = x[i]·X^0 at the minimum degree, for i in idx
 //	Repack:  x[i] = cts[i][0] for i in the map, 0 elsewhere, at the maximum degree
+//	Pack:    called directly, both values of zeroGarbageSlots × input gap 2^g × index sets {dense, gap 2, gap 3,
+//	         gap 4, single, mixed}: input k (k < 2^g) carries its values on the multiples of 2^g; the output
+//	         holds in_k[j·2^g] at position j·2^g + k for every k in the map. With zeroGarbageSlots=true every
+//	         other position is zero; with false only the positions of the map are judged (the rest is
+//	         documented as garbage). A map that cannot be packed (single input without zeroing) must be refused.
 //	ExtractNaive+Repack, Extract+RepackNaive: the naive forms leave the non-constant coefficients
 //	         alone and are documented as correct only composed with the non-naive counterpart: the
 //	         round trip keeps x[i] for i in idx and zeroes the rest
@@ -32,27 +37,100 @@ import (
 // largest parameters), later doublings at most double what is there: Expand / Pack over logn steps
 // accumulate ≤ n·B, each Split / Merge level adds B. 4·N·B is a sound over-estimate for all of them;
 // with uniform phases a wrong coefficient is off by ≈ Q, so the slack costs no discrimination.
-var packOps = []string{"Split", "Merge", "Expand", "Extract", "Repack", "ExtractNaive+Repack", "Extract+RepackNaive"}
+var packOps = []string{"Split", "Merge", "Expand", "Extract", "Repack", "ExtractNaive+Repack", "Extract+RepackNaive", "Pack"}
+
+// packCase: one direct call of Pack.
+type packCase struct {
+	zero   bool   // zeroGarbageSlots
+	logGap int    // inputLogGap (0: the ring degree, i.e. only the constant coefficients carry values)
+	set    string // index set
+}
+
+func (pc packCase) String() string {
+	return fmt.Sprintf("zeroGarbageSlots=%v/inputLogGap=%d/%s", pc.zero, pc.logGap, pc.set)
+}
+
+func (pc packCase) keys(n int) (k []int) {
+	switch pc.set {
+	case "dense":
+		for i := 0; i < n; i++ {
+			k = append(k, i)
+		}
+	case "gap2", "gap3", "gap4":
+		for i := 0; i < n; i += int(pc.set[3] - '0') {
+			k = append(k, i)
+		}
+	case "single":
+		k = []int{n - 1}
+	case "mixed":
+		k = []int{0, 1, n - 3, n - 2}
+	case "two":
+		k = []int{0, n / 2}
+	}
+	return
+}
+
+var packCases = func() (r []packCase) {
+	for _, zero := range []bool{true, false} {
+		for _, g := range []int{0, 2, 3} {
+			for _, set := range []string{"dense", "gap2", "gap3", "gap4", "single", "mixed", "two"} {
+				if g == 2 && (set == "gap3" || set == "gap4") {
+					continue // (fewer than two indexes below 4)
+				}
+				r = append(r, packCase{zero, g, set})
+			}
+		}
+	}
+	return
+}()
 
 func packScenario(logN, minLogN int, ch rk.Chain, bound int) engine.Scenario {
+	return packScenarioOf(logN, minLogN, ch, bound, false)
+}
+
+// packDirectScenario: the direct calls of Pack (packCases) in their own scenario, with default key
+// parameters (every LevelP, both operand domains): the cases are a product of their own.
+func packDirectScenario(logN, minLogN int, ch rk.Chain) engine.Scenario {
+	return packScenarioOf(logN, minLogN, ch, -1, true)
+}
+
+func packScenarioOf(logN, minLogN int, ch rk.Chain, bound int, direct bool) engine.Scenario {
 	name := fmt.Sprintf("pack/logN%d..%d/%s", minLogN, logN, ch.Name)
+	if direct {
+		name = fmt.Sprintf("packdirect/logN%d..%d/%s", minLogN, logN, ch.Name)
+	}
 	rt := ring.Standard
 	return engine.Scenario{Name: name, Bound: bound, Fn: func(c *engine.Chooser) {
 		p := rk.Params(ch.Lit(logN, maxLogN, rt, true, nil, nil))
-		op := packOps[c.ChooseFree(len(packOps), "op")]
 		var kp keyParams
-		kp.levelQ = p.MaxLevelQ() - c.Choose(p.MaxLevelQ()+1, "LevelQ")
-		kp.levelP = p.MaxLevelP() - c.ChooseFree(p.MaxLevelP()+2, "LevelP")
-		kp.base2 = base2Alphabet[c.Choose(len(base2Alphabet), "BaseTwoDecomposition")]
-		variant := c.Choose(3, "variant") // op-specific: index set / gap / nil odd half
-		// keys generated compressed, expanded by the caller before the evaluator is built
-		kp.compressed = c.Bool("Compressed")
-		// operands in the coefficient domain (parameters with NTTFlag=false would produce them)
-		inNTT := c.Choose(2, "IsNTT") == 0
+		var op string
+		var variant, packCase int
+		var inNTT bool
+		if direct {
+			op = "Pack"
+			kp.levelQ = p.MaxLevelQ()
+			kp.levelP = p.MaxLevelP() - c.ChooseFree(p.MaxLevelP()+2, "LevelP")
+			packCase = c.ChooseFree(len(packCases), "packCase")
+			inNTT = c.ChooseFree(2, "IsNTT") == 0
+		} else {
+			op = packOps[c.ChooseFree(len(packOps)-1, "op")] // ("Pack", the last one, has its own scenario)
+			kp.levelQ = p.MaxLevelQ() - c.Choose(p.MaxLevelQ()+1, "LevelQ")
+			kp.levelP = p.MaxLevelP() - c.ChooseFree(p.MaxLevelP()+2, "LevelP")
+			kp.base2 = base2Alphabet[c.Choose(len(base2Alphabet), "BaseTwoDecomposition")]
+			variant = c.Choose(3, "variant") // op-specific: index set / gap / nil odd half
+			// keys generated compressed, expanded by the caller before the evaluator is built
+			kp.compressed = c.Bool("Compressed")
+			// operands in the coefficient domain (parameters with NTTFlag=false would produce them)
+			inNTT = c.Choose(2, "IsNTT") == 0
+		}
 		c.Cover("pack-keys", map[bool]string{false: "plain", true: "compressed-then-expanded"}[kp.compressed])
 		c.Cover("pack-IsNTT", fmt.Sprint(inNTT))
 		level := kp.levelQ // the smaller parameter sets only have LevelQ+1 primes
 		cfg := fmt.Sprintf("RingPacking.%s %s variant=%d IsNTT=%v", op, kp, variant, inNTT)
+		if op == "Pack" {
+			cfg += " " + packCases[packCase].String()
+			c.Cover("pack-case", packCases[packCase].String())
+		}
 		c.Note("%s", cfg)
 		c.Cover("op", "RingPacking."+op)
 		uni.Seed(c, name, cfg)
@@ -82,6 +160,7 @@ func packScenario(logN, minLogN int, ch rk.Chain, bound int) engine.Scenario {
 			want []*big.Int
 		}
 		var results []result
+		var packJudged []bool // Pack without zeroing: positions outside the map are unspecified
 		var ski map[int]*rlwe.SecretKey
 		var rpk rlwe.RingPackingEvaluationKey
 		constPoly := func(n int, v *big.Int) []*big.Int {
@@ -133,10 +212,10 @@ func packScenario(logN, minLogN int, ch rk.Chain, bound int) engine.Scenario {
 			case "Split":
 				ct := uniformCt(p, 1, level, inNTT, name, cfg, "ct")
 				x := phase(logN, ct)
-				even := rlwe.NewCiphertext(par(logN-1), 1, level)
+				even := dirtyReceiver(par(logN-1), 1, level, inNTT, name, cfg, "even") // receivers with a history
 				var odd *rlwe.Ciphertext
 				if variant != 2 { // the odd half is optional
-					odd = rlwe.NewCiphertext(par(logN-1), 1, level)
+					odd = dirtyReceiver(par(logN-1), 1, level, inNTT, name, cfg, "odd")
 				}
 				if variant == 1 {
 					var err error
@@ -175,7 +254,7 @@ func packScenario(logN, minLogN int, ch rk.Chain, bound int) engine.Scenario {
 						return err
 					}
 				} else {
-					out = rlwe.NewCiphertext(p, 1, level)
+					out = dirtyReceiver(p, 1, level, inNTT, name, cfg, "merged")
 					if err := eval.Merge(even, odd, out); err != nil {
 						return err
 					}
@@ -257,6 +336,38 @@ func packScenario(logN, minLogN int, ch rk.Chain, bound int) engine.Scenario {
 					}
 					results = append(results, result{"round trip", out, logN, want})
 				}
+			case "Pack":
+				pm := par(minLogN)
+				pc := packCases[packCase]
+				g := pc.logGap
+				if g == 0 {
+					g = minLogN
+				}
+				keys := pc.keys(1 << g)
+				cts := map[int]*rlwe.Ciphertext{}
+				want := make([]*big.Int, pm.N())
+				judged := make([]bool, pm.N())
+				for i := range want {
+					want[i] = new(big.Int)
+					judged[i] = pc.zero // zeroed garbage: every position is specified
+				}
+				for _, k := range keys {
+					cts[k] = uniformCt(pm, 1, level, inNTT, name, cfg, "ct", k)
+					x := phase(minLogN, cts[k])
+					for j := 0; j < pm.N(); j += 1 << g {
+						want[j+k], judged[j+k] = x[j], true
+					}
+				}
+				out, err := eval.Pack(cts, g, pc.zero)
+				if err != nil {
+					if len(keys) == 1 && !pc.zero {
+						c.Cover("rejected", "Pack/single-input-without-zeroing")
+						return nil
+					}
+					return err
+				}
+				packJudged = judged
+				results = append(results, result{"packed", out, minLogN, want})
 			case "Repack":
 				pm := par(minLogN)
 				var keys []int
@@ -309,6 +420,15 @@ func packScenario(logN, minLogN int, ch rk.Chain, bound int) engine.Scenario {
 			if r.ct.LogN() != r.logN || r.ct.Level() != level {
 				c.Fail(sig("shape"), "%s %s: logN %d level %d, want %d and %d", cfg, r.what, r.ct.LogN(), r.ct.Level(), r.logN, level)
 				return
+			}
+			if packJudged != nil {
+				// compare only the specified positions
+				got := rk.Phase(rt, pr.RingQ(), &r.ct.Element, rk.Secret(pr, ski[r.logN]))
+				for i := range got {
+					if !packJudged[i] {
+						r.want[i] = got[i]
+					}
+				}
 			}
 			if !judge(c, sig("phase"), cfg+" "+r.what, rt, pr.RingQ(), r.ct, rk.Secret(pr, ski[r.logN]), rk.CenterAll(r.want, Q), bnd) {
 				return
